@@ -31,6 +31,7 @@ impl Tok {
 impl Drop for Tok {
     fn drop(&mut self) {
         obs::push_event(Ev::Drop { arena: self.arena, id: self.id, class: self.class, ctx: obs::ctx() });
+        obs::on_tok_drop(self.id);
     }
 }
 
